@@ -5,7 +5,8 @@ Executable models of the least-squares / factorisation solvers of pydl (C15):
   pcomp         pydl/pcomp.py:36-100
   HMF           pydl/pydlspec2d/spec1d.py:165-334 (model/chi/penalty/badness, normbase,
                 astep, gstep, astepnn, gstepnn, reorder, iterate)
-  pca_solve     pydl/pydlspec2d/spec1d.py:629-756 (maxiter = 0, every object "good")
+  pca_solve     pydl/pydlspec2d/spec1d.py:629-756 (`pcaSolve`: maxiter = 0, every object "good";
+                `pcaSolveMax`: all branches, see the extension section at the end)
 
 Generic over `[Scalar α]`.  Inputs are functions `Nat → α` / `Nat → Nat → α`
 together with their sizes (the driver passes array look-ups), every
@@ -344,5 +345,224 @@ def pcaSolve (sqrt : α → α) (svd : Mat α → Svd α) (eigh : Mat α → Eig
   | some (pc, acoeff) =>
     pure { usemask := usemask nobj npix ivar, pres := pc.derived, eigenval := pc.evals, acoeff := acoeff,
            filtflux := filt }
+
+/-! ## Extension round: the remaining branches of the code
+
+* `computechi2` with a one-dimensional `amatrix` (one template; `nstar = 1`, the vector is used as an `n × 1` matrix)
+* `HMF.iterate` including the detection and removal of all-zero columns (`find_contiguous`)
+* `pca_solve` with the `goodobj`-False branch, the `nobj == 1` early return and the outer
+  PCA + reject loop for `maxiter ≥ 0` (with `djs_reject` as `pca_solve` calls it: no `lower/upper/maxdev`)
+-/
+
+/-- `computechi2(bvec, sqivar, amatrix)` with `amatrix.ndim == 1`: `nstar = 1`, one column -/
+def computechi2Vec (svd : Mat α → Svd α) (n : Nat) (b sq a : Nat → α) : Chi2 α :=
+  computechi2 svd n 1 b sq (fun i _ => a i)
+
+/-! ### HMF.iterate with zero-column removal -/
+
+/-- `zerocol[j]` : the column sum of `spectra`, of `invvar` or of their product is exactly zero -/
+def zeroCol (N : Nat) (s w : Nat → Nat → α) (j : Nat) : Bool :=
+  ((sumN N fun i => s i j) == 0) || ((sumN N fun i => w i j) == 0) || ((sumN N fun i => s i j * w i j) == 0)
+
+/-- the list `contig` that `find_contiguous` builds: maximal runs of consecutive `true`, as (start, length) -/
+def runsOf (M : Nat) (good : Nat → Bool) : List (Nat × Nat) :=
+  (List.range M).foldl (fun (acc : List (Nat × Nat)) k =>
+    if good k then
+      match acc.getLast? with
+      | some (st, l) => if k = st + l then acc.dropLast ++ [(st, l + 1)] else acc ++ [(k, 1)]
+      | none => [(k, 1)]
+    else acc) []
+
+/-- `find_contiguous(x)` : the FIRST run of maximal length (`lengths.index(max(lengths))`);
+`none` when nothing is `true` (`max([])` raises ValueError) -/
+def findContiguous (M : Nat) (good : Nat → Bool) : Option (Nat × Nat) :=
+  match runsOf M good with
+  | [] => none
+  | r :: rs => some (rs.foldl (fun best x => if best.2 < x.2 then x else best) r)
+
+structure HmfOut (α : Type) where
+  col0 : Nat            -- first kept column
+  ncol : Nat            -- number of kept columns (`len(goodcol)`)
+  nzero : Nat           -- `n_zero`
+  a : Mat α
+  g : Mat α
+
+/-- `iterate()` as a whole: clamp (non-negative mode), zero-column detection, restriction to the longest
+contiguous block of good columns, then the iteration proper on the `N × ncol` block.  `g0` is what
+`kmeans(whiten(spectra[:, goodcol]), K)` returned (K rows, `ncol` columns). -/
+def iterateCols (sqrt : α → α) (solve : Mat α → Vec α → Vec α) (eigh : Mat α → Eig α)
+    (N M K nIter nnPre : Nat) (s0 w : Nat → Nat → α) (g0 : Nat → Nat → α) (nonneg : Bool)
+    (eps : Option α) : Except String (HmfOut α) :=
+  let s : Nat → Nat → α := fun i j => if nonneg then (if s0 i j < 0 then 0 else s0 i j) else s0 i j
+  let nz := countN M (zeroCol N s w)
+  match findContiguous M (fun j => !(zeroCol N s w j)) with
+  | none => .error "ValueError"
+  | some (c0, M') =>
+    let r := iterate sqrt solve eigh N M' K nIter nnPre (fun i j => s i (c0 + j)) (fun i j => w i (c0 + j)) g0 nonneg eps
+    .ok { col0 := c0, ncol := M', nzero := nz, a := r.1, g := r.2 }
+
+/-- one sweep of the default (signed) mode: `astep; gstep; reorder; renormalise` - the body of the loop of `iterate` -/
+def sweepSigned (sqrt : α → α) (solve : Mat α → Vec α → Vec α) (eigh : Mat α → Eig α)
+    (N M K : Nat) (s w : Nat → Nat → α) (eps : Option α) (ag : Mat α × Mat α) : Mat α × Mat α :=
+  let a' := astep solve N M K s w (mget ag.2)
+  let g' := gstep solve N M K s w (mget a') (mget ag.2) eps
+  let ag' := reorder eigh N M K (mget a') (mget g')
+  renorm sqrt N M K (mget ag'.1) (mget ag'.2)
+
+/-- one sweep of the non-negative mode: `astepnn; gstepnn; renormalise` -/
+def sweepNN (sqrt : α → α) (N M K : Nat) (s w : Nat → Nat → α) (eps : Option α) (ag : Mat α × Mat α) : Mat α × Mat α :=
+  let a' := astepnn N M K s w (mget ag.1) (mget ag.2)
+  let g' := gstepnn N M K s w (mget a') (mget ag.2) eps
+  renorm sqrt N M K (mget a') (mget g')
+
+/-- the spectra `iterate` works on (negative values clamped in non-negative mode) -/
+def iterateSpectra (N M : Nat) (s0 : Nat → Nat → α) (nonneg : Bool) : Mat α :=
+  if nonneg then mtab N M fun i j => if s0 i j < 0 then 0 else s0 i j else mtab N M s0
+
+/-- the state before the first sweep of `iterate`: normalised k-means components, flat coefficients,
+128 non-negative a-steps in non-negative mode -/
+def iterateStart (sqrt : α → α) (N M K nnPre : Nat) (s0 w g0 : Nat → Nat → α) (nonneg : Bool) : Mat α × Mat α :=
+  let s := mget (iterateSpectra N M s0 nonneg)
+  let nb := normbase sqrt K M g0
+  let g1 := mtab K M fun k j => g0 k j / vget nb k
+  let a1 := mtab N K fun i _ => sqrt ((sumN M fun j => s i j * s i j) / Scalar.ofNat M) * (1 / Scalar.ofNat K)
+  let a2 := if nonneg then iterN nnPre (fun a => astepnn N M K s w (mget a) (mget g1)) a1 else a1
+  (a2, g1)
+
+/-! ### pca_solve, all branches -/
+
+abbrev Mask := Array (Array Bool)
+def btab (r c : Nat) (f : Nat → Nat → Bool) : Mask :=
+  Array.ofFn (n := r) fun i => Array.ofFn (n := c) fun j => f i.val j.val
+def bget (m : Mask) (i j : Nat) : Bool := (m[i]!)[j]!
+
+/-- `djs_reject(newflux, ymodel, inmask=inmask, outmask=outmask, invvar=newivar)` as `pca_solve` calls it:
+no `sigma`, `lower`, `upper`, `maxdev`, `maxrej`, `grow`, `sticky`.  Without a model the input mask is
+returned and `qdone = False`; with a model `badness` stays zero (`zeros * inmask`), the new mask is
+`(badness == 0) & inmask` and `qdone` says whether it equals the previous mask. -/
+def pcaReject (nobj npix : Nat) (hasModel : Bool) (inmask : Nat → Nat → Bool) (outmask : Option Mask) : Mask × Bool :=
+  let om : Mask := match outmask with
+    | some m => m
+    | none => btab nobj npix fun _ _ => true
+  if !hasModel then (btab nobj npix inmask, false)
+  else
+    let newmask := btab nobj npix fun i p =>
+      let badness : α := (0 : α) * (if inmask i p then 1 else 0)
+      (badness == 0) && inmask i p
+    let qdone := (List.range nobj).all fun i => (List.range npix).all fun p => bget newmask i p == bget om i p
+    (newmask, qdone)
+
+structure PcaState (α : Type) where
+  pres : Mat α          -- npix × nobj
+  eigenval : Vec α      -- nobj
+  acoeff : Mat α        -- nobj × nkeep
+  filt : Mat α          -- nobj × npix
+  ngood : Nat           -- number of objects with signal in this pass
+
+/-- `goodobj[i]` : total absolute deviation of the filtered flux from its value at the first good pixel is positive -/
+def goodObj (npix : Nat) (ivar : Nat → Nat → α) (filt : Mat α) (i : Nat) : Bool :=
+  let f0 := mget filt i (firstNonzero npix (ivar i))
+  decide (0 < sumN npix fun p => absS (mget filt i p - f0))
+
+/-- the eigenspectra of one pass, both `goodobj` branches: (pres, eigenval, number of objects with signal).
+When some object has no signal the principal components are computed from the others; their derived
+variables / eigenvalues fill the LEADING columns / entries, the rest stays zero. -/
+def pcaBasis (sqrt : α → α) (eigh : Mat α → Eig α) (argsort : Vec α → Array Nat)
+    (nobj npix : Nat) (ivar : Nat → Nat → α) (filt : Mat α) : Mat α × Vec α × Nat :=
+  let gi : Array Nat := ((List.range nobj).filter (goodObj npix ivar filt)).toArray
+  let ng := gi.size
+  if ng = nobj then
+    let pc := pcomp sqrt eigh argsort npix nobj (fun p i => mget filt i p) false false
+    (pc.derived, pc.evals, ng)
+  else
+    let pc := pcomp sqrt eigh argsort npix ng (fun p c => mget filt (gi[c]!) p) false false
+    (mtab npix nobj fun p c => if c < ng then mget pc.derived p c else 0,
+     vtab nobj fun c => if c < ng then vget pc.evals c else 0, ng)
+
+/-- one pass of the inner loop; `mivar = newivar * outmask` are the weights of the projections and of the refill -/
+def pcaPassG (sqrt : α → α) (svd : Mat α → Svd α) (eigh : Mat α → Eig α) (argsort : Vec α → Array Nat)
+    (nobj npix nkeep : Nat) (flux ivar mivar : Nat → Nat → α) (syn : Vec α) (filt : Mat α) : PcaState α :=
+  let be := pcaBasis sqrt eigh argsort nobj npix ivar filt
+  let pres := be.1
+  let outs : Array (Vec α × Vec α) := Array.ofFn (n := nobj) fun i =>
+    let o := pcaProject sqrt svd npix nkeep (flux i.val) (mivar i.val) (mget pres)
+    (o.acoeff, o.yfit)
+  let filt' := mtab nobj npix fun i p =>
+    (mivar i p * flux i p + vget syn p * vget (outs[i]!).2 p) / (mivar i p + vget syn p)
+  let acoeff := mtab nobj nkeep fun i k => vget (outs[i]!).1 k
+  { pres := pres, eigenval := be.2.1, acoeff := acoeff, filt := filt', ngood := be.2.2 }
+
+/-- the inner loop: `niter` passes, each starting from the filtered fluxes of the previous one -/
+def pcaInner (pass : Mat α → PcaState α) : Nat → PcaState α → PcaState α
+  | 0, st => st
+  | n + 1, st => pcaInner pass n (pass st.filt)
+
+/-- the weights of one outer iteration: `maskivar = newivar * outmask` -/
+def maskIvar (ivar : Nat → Nat → α) (om : Mask) (i p : Nat) : α := ivar i p * (if bget om i p then 1 else 0)
+
+structure PcaLoop (α : Type) where
+  outmask : Option Mask
+  qdone : Bool
+  iiter : Nat
+  last : Option (PcaState α)
+
+/-- the state at the top of every outer iteration: `filtflux = newflux.copy()`, `acoeff = zeros` -/
+def pcaInit (nobj npix nkeep : Nat) (flux : Nat → Nat → α) : PcaState α :=
+  { pres := #[], eigenval := #[], acoeff := mtab nobj nkeep fun _ _ => 0, filt := mtab nobj npix flux, ngood := 0 }
+
+/-- the mask `djs_reject` returns in this outer iteration -/
+def pcaStepMask (nobj npix : Nat) (ivar : Nat → Nat → α) (L : PcaLoop α) : Mask × Bool :=
+  pcaReject (α := α) nobj npix L.last.isSome (fun i p => !(ivar i p == 0)) L.outmask
+
+/-- one outer iteration: `djs_reject`, then `niter` inner passes from the unfiltered fluxes with the weights
+`newivar * outmask`, `iiter += 1` (the model `ymodel` of the next `djs_reject` call is `acoeff · presᵀ`; with the
+arguments `pca_solve` passes its values are never looked at, only its presence) -/
+def pcaOuterStep (sqrt : α → α) (svd : Mat α → Svd α) (eigh : Mat α → Eig α) (argsort : Vec α → Array Nat)
+    (nobj npix niter nkeep : Nat) (flux ivar : Nat → Nat → α) (syn : Vec α) (L : PcaLoop α) : PcaLoop α :=
+  { outmask := some (pcaStepMask nobj npix ivar L).1, qdone := (pcaStepMask nobj npix ivar L).2, iiter := L.iiter + 1,
+    last := some (pcaInner (pcaPassG sqrt svd eigh argsort nobj npix nkeep flux ivar
+      (maskIvar ivar (pcaStepMask nobj npix ivar L).1) syn) niter (pcaInit nobj npix nkeep flux)) }
+
+/-- the outer loop `while qdone == 0 and iiter <= maxiter` (fuel `maxiter + 1` is enough: `iiter` grows by one) -/
+def pcaOuter (sqrt : α → α) (svd : Mat α → Svd α) (eigh : Mat α → Eig α) (argsort : Vec α → Array Nat)
+    (nobj npix niter nkeep maxiter : Nat) (flux ivar : Nat → Nat → α) (syn : Vec α) :
+    Nat → PcaLoop α → PcaLoop α
+  | 0, L => L
+  | fuel + 1, L =>
+    if !L.qdone && decide (L.iiter ≤ maxiter) then
+      pcaOuter sqrt svd eigh argsort nobj npix niter nkeep maxiter flux ivar syn fuel
+        (pcaOuterStep sqrt svd eigh argsort nobj npix niter nkeep flux ivar syn L)
+    else L
+
+structure PcaFull (α : Type) where
+  usemask : Array Nat
+  outmask : Mask
+  pres : Mat α          -- npix × nobj
+  eigenval : Vec α
+  acoeff : Mat α
+  filtflux : Mat α
+  passes : Nat          -- number of outer (PCA + reject) iterations that were run
+  ngood : Nat           -- objects with signal in the last inner pass
+
+inductive PcaOut (α : Type) where
+  | single (flux : Vec α)     -- `nobj == 1`: only `flux` is returned
+  | full (r : PcaFull α)
+
+/-- `pca_solve(newflux, newivar, maxiter, niter, nkeep)` for two-dimensional input -/
+def pcaSolveMax (sqrt : α → α) (svd : Mat α → Svd α) (eigh : Mat α → Eig α) (argsort : Vec α → Array Nat)
+    (nobj npix niter nkeep maxiter : Nat) (flux ivar : Nat → Nat → α) : Except String (PcaOut α) :=
+  if (List.range nobj).any (fun i => firstNonzero npix (ivar i) = npix) then .error "ValueError"
+  else if nobj = 1 then .ok (.single (vtab npix (flux 0)))
+  else if niter = 0 then .error "niter = 0: pres undefined (UnboundLocalError in the code)"
+  else
+    let syn := synwvec nobj npix ivar
+    let L := pcaOuter sqrt svd eigh argsort nobj npix niter nkeep maxiter flux ivar syn (maxiter + 1)
+      { outmask := none, qdone := false, iiter := 0, last := none }
+    match L.outmask, L.last with
+    | some om, some st =>
+      .ok (.full { usemask := Array.ofFn (n := npix) fun p => countN nobj fun i => bget om i p.val,
+                   outmask := om, pres := st.pres, eigenval := st.eigenval, acoeff := st.acoeff,
+                   filtflux := st.filt, passes := L.iiter, ngood := st.ngood })
+    | _, _ => .error "unreachable"
 
 end PydlVerif.Solvers
